@@ -123,6 +123,15 @@ impl Integer {
     /// Returns the [IntegerType] of `self`.
     /// The [IntegerType] describes the absolute range of an integer
     pub fn int_type(&self) -> IntegerType {
+        // Of serially applied constraints the last one decides whether the type is extensible
+        if self.constraints.last().is_some_and(|c| {
+            c.unpack_as_value_range()
+                .map(|(_, _, extensible)| extensible)
+                .or_else(|_| c.unpack_as_strict_value().map(|(_, extensible)| extensible))
+                .unwrap_or(false)
+        }) {
+            return IntegerType::Unbounded;
+        }
         self.constraints
             .iter()
             .fold(IntegerType::Unbounded, |acc, c| {
